@@ -746,7 +746,18 @@ func NewTimer(d, period int64) *Timer {
 }
 
 //go:norace
-func (tm *Timer) Stop() { tm.active = false }
+func (tm *Timer) Stop() {
+	tm.active = false
+	if Timers123 {
+		tm.buffered = false
+	}
+}
+
+// Timers123: the module under test declares go 1.23 or later, so its timers have the semantics of
+// that release: after Stop or Reset no value prepared before the call can be received.  (Set by
+// a file the rewriter generates from the go directive of the tree under test; under the older
+// semantics a stale value MAY still be delivered, which is what the model then allows.)
+var Timers123 bool
 
 //go:norace
 func (tm *Timer) Reset(d int64) {
@@ -759,6 +770,9 @@ func (tm *Timer) Reset(d int64) {
 	}
 	tm.active = true
 	tm.armed = true
+	if Timers123 {
+		tm.buffered = false
+	}
 }
 
 func threadMain(t int, body func(int)) {
